@@ -1030,8 +1030,14 @@ def r05_3(ctx):
                 b = ctx.F.body(q)
                 if b is None:
                     continue
-                n = len([p for p in pushes_on(ctx, b, fld) if p[1] == want[0]])
+                sites = [p for p in pushes_on(ctx, b, fld) if p[1] == want[0]]
+                n = len(sites)
                 ctx.check(n == 1, R, '%s|one %s on %s' % (short(q), want[0], fld), b.loc(), 'exactly one %s' % want[0], '%s performs %d %s on %s, expected exactly one' % (short(q), n, want[0], fld))
+                if n == 1:
+                    # ... on every path to a normal return: an early-out that skips it unbalances every later pop/push pair
+                    okp, pth = ctx.an(b).cfg.must_pass_through(0, set([sites[0][0]]))
+                    ctx.check(okp, R, '%s|%s on every path' % (short(q), want[0]), b.loc(), 'every returning path performs the %s' % want[0],
+                              '%s can return without its %s on %s (blocks %s): the matching %s then removes/adds an entry that belongs to an enclosing scope, so pushes and pops no longer pair up' % (short(q), want[0], fld, pth, 'pop' if want[0] == 'push' else 'push'))
 
 
 def r05_4(ctx):
